@@ -84,6 +84,14 @@ pub unsafe fn no_dealloc(ptr: *mut u8, layout: core::alloc::Layout) {
     __rust_dealloc(ptr, layout.size(), layout.align())
 }
 
+pub unsafe fn no_realloc(ptr: *mut u8, layout: core::alloc::Layout, new_size: usize) -> *mut u8 {
+    assert!(!ARMED, "[C18] heap reallocation inside a library call");
+    extern "Rust" {
+        fn __rust_realloc(ptr: *mut u8, old_size: usize, align: usize, new_size: usize) -> *mut u8;
+    }
+    __rust_realloc(ptr, layout.size(), layout.align(), new_size)
+}
+
 pub fn any_lt(max: usize) -> usize {
     let k: usize = kani::any();
     kani::assume(k < max);
